@@ -4,12 +4,14 @@
 mod common;
 mod constraints_replay;
 mod doubles;
+mod drv;
 mod feature_replay;
 mod geom_replay;
 mod kalman_replay;
 mod nms_replay;
 mod store_replay;
 mod track_replay;
+mod tracker_replay;
 mod voting_replay;
 
 fn main() {
@@ -24,6 +26,7 @@ fn main() {
     match (args[0].as_str(), args[1].as_str()) {
         ("replay", "store") => store_replay::main(&opts),
         ("replay", "track") => track_replay::main(&opts),
+        ("replay", "tracker") => tracker_replay::main(&opts),
         ("replay", "geom") => geom_replay::main(&opts),
         ("replay", "nms") => nms_replay::main(&opts),
         ("replay", "feature") => feature_replay::main(&opts),
